@@ -291,3 +291,41 @@ theorem C20_pinned_tuple_index_counterexample (sp : Sp) (h : sp ≠ Sp.callSite)
   · simp [FieldOp.userToks] at ho
 
 end AsModel
+
+namespace AsModel
+
+/-- **The recorded finding `shape-*` as a fact about the model**: the frames of the tuple, slice
+and set templates (`match & … { ( … ) = > { … } , _ = > unreachable ! ( … ) , }`,
+`match ( … ) . as_slice ( ) { [ … ] = > { … } _ = > { … } }`, the whole set block) are stamped
+with the call site - everything in them that is not the value expression, a binder, the
+sub-patterns' code or the push.  A value of another shape is therefore reported on the whole
+macro invocation (`( … ) . as_slice ( )` is where rustc finds no such method). -/
+theorem C20_shape_frames_call_site (value : Toks) (v : VExpr) (bs : List Binder) (body : Codes) (push : Push) :
+    (∀ t ∈ (Code.tuple v bs body).toks value,
+      t.sp = Sp.callSite ∨ t ∈ v.toks value ∨ t ∈ (bs.map Binder.toks).flatten ∨ t ∈ body.toks value) ∧
+    (∀ t ∈ (Code.slice v bs body push).toks value,
+      t.sp = Sp.callSite ∨ t ∈ v.toks value ∨ t ∈ (bs.map Binder.toks).flatten ∨ t ∈ body.toks value ∨
+        t ∈ push.toks value) := by
+  constructor
+  · simp only [Code.toks, List.forall_mem_append]
+    (repeat' apply And.intro) <;> intro t ht
+    all_goals first
+      | exact Or.inl (mem_tq ht)
+      | exact Or.inl (mem_tstr ht).1
+      | exact Or.inr (Or.inl ht)
+      | exact Or.inr (Or.inr (Or.inr ht))
+      | (rcases mem_sepBy ht with h' | h'
+         · exact Or.inl (mem_tq h')
+         · exact Or.inr (Or.inr (Or.inl h')))
+  · simp only [Code.toks, List.forall_mem_append]
+    (repeat' apply And.intro) <;> intro t ht
+    all_goals first
+      | exact Or.inl (mem_tq ht)
+      | exact Or.inr (Or.inl ht)
+      | exact Or.inr (Or.inr (Or.inr (Or.inl ht)))
+      | exact Or.inr (Or.inr (Or.inr (Or.inr ht)))
+      | (rcases mem_sepBy ht with h' | h'
+         · exact Or.inl (mem_tq h')
+         · exact Or.inr (Or.inr (Or.inl h')))
+
+end AsModel
